@@ -65,6 +65,7 @@ type incarnation struct {
 
 	prevSnap   map[cloud.InstanceID]worker.VerifWorker
 	brokenSeen map[string]time.Time
+	listed     map[string]bool // instances from which a crunch-run --list answer has been delivered
 	listings   int
 }
 
@@ -169,7 +170,7 @@ func (s *sim) newLogger() *logrus.Logger {
 func (s *sim) startDispatcher() *incarnation {
 	s.nInc++
 	inc := &incarnation{n: s.nInc, node: fmt.Sprintf("disp%d", s.nInc), s: s, began: time.Now(),
-		know: map[string]*knowledge{}, pending: map[string][]news{}, brokenSeen: map[string]time.Time{}}
+		know: map[string]*knowledge{}, pending: map[string][]news{}, brokenSeen: map[string]time.Time{}, listed: map[string]bool{}}
 	s.inc = inc
 	s.logf("dispatcher %d starts", inc.n)
 	s.w.SpawnOn(inc.node, inc.node, func() {
